@@ -145,6 +145,37 @@ func javaFullFamily(c map[string]json.RawMessage) (interface{}, error) {
 	if op == "fullmulti" {
 		return javaFullMulti(c, dir)
 	}
+	if boolean(c, "cli") && len(c["order"]) == 0 {
+		// `coca analysis -p dir` in a fresh process: coca_reporter/identify.json and deps.json
+		work, err := newWork()
+		if err != nil {
+			return nil, err
+		}
+		defer os.RemoveAll(work)
+		if _, err := cocaCli(work, "analysis", "-p", dir); err != nil {
+			return nil, err
+		}
+		var nodes, identifiers []core_domain.CodeDataStruct
+		b, err := getReport(work, "deps.json")
+		if err != nil {
+			return nil, err
+		}
+		if err := json.Unmarshal(b, &nodes); err != nil {
+			return map[string]interface{}{"reportUnreadable": "deps.json: " + err.Error()}, nil
+		}
+		b, err = getReport(work, "identify.json")
+		if err != nil {
+			return nil, err
+		}
+		if err := json.Unmarshal(b, &identifiers); err != nil {
+			return map[string]interface{}{"reportUnreadable": "identify.json: " + err.Error()}, nil
+		}
+		idk := []string{}
+		for _, i := range identifiers {
+			idk = append(idk, i.Package+"."+i.NodeName)
+		}
+		return map[string]interface{}{"nodes": nodesJ(nodes, dir+string(os.PathSeparator)), "identKeys": idk, "identifiers": nodesJ(identifiers, dir+string(os.PathSeparator))}, nil
+	}
 	// the pipeline of `coca analysis`: identifier pass over the tree, then the full pass
 	identApp := javaapp.NewJavaIdentifierApp()
 	identifiers := identApp.AnalysisPath(dir)
